@@ -268,6 +268,14 @@ def eval_case(case, stats=None, all_subsets=False):
         st_.case([cid, core.sha(f.before), "calib"], False, labels + ["single-copy-not-acted-on-in-new-context"])
         return st_.violations[v0:]
     if len(parts_present) == 1 and dropped:
+        # ... provided the unshifted fixture is acted on at all (a fixture the codemod declines says nothing about shifts)
+        prog0 = {"codemod": cid, "parts": [{"code": program["parts"][0]["code"], "results": program["parts"][0]["results"], "ops": []}], "file_ops": []}
+        rd0 = progspace.render(prog0, "code.py")
+        with runner.scratch("c06z") as rz:
+            obs0 = run_doc(cid, rd0, Path(rz))
+        if obs0.res.exit != 0 or not obs0.files or not obs0.files[0].changed:
+            st_.discard("fixture-not-acted-on")
+            return st_.violations[v0:]
         st_.violation(cid, "reported-finding-not-acted-on-after-shift", {"case": case}, json.dumps({"before": before, "document": rd_all["results"]})[:6000], features=feats)
         st_.case([cid, core.sha(f.before), "calib"], True, labels + ["shift-only"])
         return st_.violations[v0:]
